@@ -6,12 +6,12 @@
  *  - span oracle (returned pointer/length inside the message);
  *  - per-call CPU-time watchdog: a call that does not return within > 1 s of CPU time
  *    is abandoned with siglongjmp and reported as clause "no-termination";
- *  - one forked child per target group.  ASan in recover mode reports every faulting PC
- *    only once per process (suppress_equal_pcs) and the libc interceptors (memcpy, memchr,
- *    memmem, strnlen ...) have ONE pc for all their callers, so in a single process a report
- *    in one target would hide the same kind of report in every later target.  A fresh child
- *    per group starts with an empty "already reported" pool.  The global case counter of
- *    vh.h is carried from child to parent so that sharding / --skip-until stay consistent.
+ *  - one forked child per target group: a crash (an out-of-bounds read that runs into an
+ *    unmapped page kills the process even in recover mode) or a flood of ASan reports in one
+ *    target costs only that group; the other groups of the shard still run.  The global case
+ *    counter of vh.h is carried from child to parent so that sharding / --skip-until stay
+ *    consistent.  (Written when vh.h still ran with suppress_equal_pcs=1, where a fresh
+ *    process per target was also needed to keep one target's report from hiding another's.)
  */
 #ifndef C13_H
 #define C13_H
@@ -114,11 +114,27 @@ c13_alarm(int sig) {
 	}
 }
 
+/* An out-of-bounds read that runs into an unmapped page (the chunk was the last one the
+ * allocator had mapped) is a real SIGSEGV even in ASan's recover mode.  It is recorded as a
+ * violation of the current case and the enumeration goes on. */
+static void
+c13_segv(int sig) {
+	if (0 != c13_in_case)
+		siglongjmp(c13_jb, 2);
+	signal(sig, SIG_DFL);
+	raise(sig);
+}
+
 static void
 c13_watchdog_start(void) {
 	struct sigaction sa;
 	struct itimerval it;
 
+	memset(&sa, 0, sizeof(sa));
+	sa.sa_handler = c13_segv;
+	sa.sa_flags = SA_NODEFER | SA_ONSTACK;
+	sigaction(SIGSEGV, &sa, NULL);
+	sigaction(SIGBUS, &sa, NULL);
 	memset(&sa, 0, sizeof(sa));
 	sa.sa_handler = c13_alarm;
 	sa.sa_flags = SA_NODEFER;
@@ -134,18 +150,23 @@ c13_hang_seen(void) {
 	vh_fail("no-termination", "the call did not return within 1 s of CPU time");
 	if (++ c13_hangs >= 3 && 0 == c13_abandon) {
 		c13_abandon = 1;
-		printf("NOTE\tgroup abandoned after 3 non-terminating calls (cases still counted, not run)\n");
+		printf("NOTE\tcut\tgroup abandoned after 3 non-terminating calls (cases still counted, not run)\n");
 	}
 }
 
 /* Run one case body under the watchdog. */
 static inline void
 c13_case(void (*fn)(void)) {
-	if (0 == sigsetjmp(c13_jb, 0)) {
+	int r = sigsetjmp(c13_jb, 0);
+
+	if (0 == r) {
 		c13_tick_seen = 0;
 		c13_in_case = 1;
 		fn();
 		c13_in_case = 0;
+	} else if (2 == r) {
+		c13_in_case = 0;
+		vh_fail("crash:SIGSEGV", "the call died with SIGSEGV/SIGBUS (access to an unmapped page)");
 	} else {
 		c13_in_case = 0;
 		c13_hang_seen();
@@ -158,7 +179,9 @@ static inline int
 c13_probe(void (*fn)(void), const char *target) {
 	if (c13_abandon)
 		return (0);
-	if (0 == sigsetjmp(c13_jb, 0)) {
+	int r = sigsetjmp(c13_jb, 0);
+
+	if (0 == r) {
 		c13_tick_seen = 0;
 		c13_in_case = 1;
 		fn();
@@ -168,11 +191,50 @@ c13_probe(void (*fn)(void), const char *target) {
 	c13_in_case = 0;
 	vh_cur = vh_target_id(target);
 	vh_desc_set = 0;
-	c13_hang_seen();
+	if (2 == r)
+		vh_fail("crash:SIGSEGV", "the call died with SIGSEGV/SIGBUS (access to an unmapped page)");
+	else
+		c13_hang_seen();
 	return (0);
 }
 
 #define BEGIN(t)	(vh_begin(t) && 0 == c13_abandon)
+
+/* ------------------------------------------------------------------ ASan reports */
+/* Same clause naming as vh_asan_report_cb(), but the cap is per group (child process) and does
+ * not end the process: after C13_REPORT_CAP reports the remaining cases of this group are only
+ * counted (numbering stays identical in all shards), the run is marked not exhaustive ("cut"),
+ * and the other groups of the shard still run. */
+#define C13_REPORT_CAP 400
+static uint64_t c13_reports = 0;
+
+static void
+c13_asan_cb(const char *report) {
+	char kind[64] = "unknown", rw[8] = "", clause[96];
+	const char *p;
+	size_t i;
+
+	p = strstr(report, "AddressSanitizer: ");
+	if (NULL != p) {
+		p += 18;
+		for (i = 0; i + 1 < sizeof(kind) && p[i] != 0 && p[i] != ' ' &&
+		    p[i] != '\n' && p[i] != ':'; i ++) {
+			kind[i] = p[i];
+		}
+		kind[i] = 0;
+	}
+	if (NULL != strstr(report, "\nWRITE of size") || NULL != strstr(report, " WRITE of size"))
+		strcpy(rw, "WRITE");
+	else if (NULL != strstr(report, "READ of size"))
+		strcpy(rw, "READ");
+	snprintf(clause, sizeof(clause), "asan:%s:%s", kind, rw);
+	vh_fail(clause, "AddressSanitizer report");
+	if (++ c13_reports > C13_REPORT_CAP && 0 == c13_abandon) {
+		c13_abandon = 1;
+		printf("NOTE\tcut\tmore than %d AddressSanitizer reports in one group of one shard: rest of the group counted, not run\n",
+		    C13_REPORT_CAP);
+	}
+}
 
 /* ------------------------------------------------------------------ groups */
 static const char *c13_group_filter = NULL;
@@ -214,6 +276,9 @@ c13_group(const char *name, void (*fn)(void)) {
 		close(pfd[0]);
 		prctl(PR_SET_PDEATHSIG, SIGKILL);
 		vh_set_describer(c13_describe);
+#ifdef VH_HAS_ASAN
+		__asan_set_error_report_callback(c13_asan_cb);
+#endif
 		c13_watchdog_start();
 		fn();
 		c13_in_case = 0;
